@@ -49,7 +49,14 @@ def main():
         rec["base_commit"] = subprocess.run(["git", "-C", wt, "rev-parse", "--short", "HEAD"], capture_output=True, text=True).stdout.strip()
         rc, o = build(wt)
         rec["build_clean_rc"] = rc
-        rc, o = sh([PY, demo, wt], wt, timeout=900)
+        envx = {"XDEPS_ROOT": wt, "XDEPS_WORKTREE": wt}
+        demo_cmd = [PY, demo, wt]
+        rc, o = sh(demo_cmd, wt, timeout=900, env=envx)
+        if rc != 0:
+            # some demos take no argument (or give it another meaning): the cwd / environment tells them the tree
+            demo_cmd = [PY, demo]
+            rc, o = sh(demo_cmd, wt, timeout=900, env=envx)
+        rec["demo_cmd"] = " ".join(demo_cmd[1:])
         rec["demo_clean_rc"] = rc
         rec["demo_clean_tail"] = o[-600:]
         rc, o = sh(["git", "apply", patch], wt)
@@ -72,7 +79,7 @@ def main():
         rec["tests_failed"] = int(f.group(1)) if f else 0
         failed = re.findall(r"^FAILED (\S+)", o, flags=re.M)
         rec["tests_failed_names"] = failed
-        rc, o = sh([PY, demo, wt], wt, timeout=900)
+        rc, o = sh(demo_cmd, wt, timeout=900, env=envx)
         rec["demo_mut_rc"] = rc
         rec["demo_mut_tail"] = o[-800:]
         rec["ok"] = (rec["demo_clean_rc"] == 0 and rec["demo_mut_rc"] != 0 and rec["tests_passed"] == 76
